@@ -21,7 +21,7 @@ PROP = dict(
              "keep the default ArgsLoader); key trees of depth <= 3 over six names in three spellings (forced overlaps), per-loader "
              "marker keys (disjoint), lists, nulls, empty maps, lower/UPPER duplicates inside one map, map/scalar conflicts forced "
              "in 1 of 8 cases, empty and failing loaders; queried: every path of every document in mixed case, absent paths and the "
-             "empty path; a case is non-trivial when it has at least two loaders; distinct = distinct scenario lines",
+             "empty path; 2 in 9 cases repeat a document (same bytes / same loader object / same file path) around a different overlapping one (X,Y,X); a case is non-trivial when it has at least two loaders; distinct = distinct scenario lines",
         trusted_base=COMMON_TB + ["spf13/viper v1.19.0 merge, key lower-casing, Get and AllSettings as modelled in Ioc.Config (validated by the correspondence)",
                                   "yaml.v3 parsing of the generated documents; go-kid/properties + strconv2 for ArgsLoader values",
                                   "Go's sort.Slice is an insertion sort (stable) below 13 elements, as modelled by sortByKey"],
